@@ -269,6 +269,52 @@ func c09BodyShape(f *File, fn *ast.FuncDecl) (string, int) {
 	if len(starts) == 0 {
 		return "unknown", f.Line(fn)
 	}
+	// the helper's third result ("the key had no record when I fetched it") is a read made BEFORE the guard: it may
+	// only steer the deferred clean-up of the in-flight tracker, never what the body does with the record
+	var flags []*ast.Ident
+	ast.Inspect(fn, func(x ast.Node) bool {
+		if as, ok := x.(*ast.AssignStmt); ok && len(as.Rhs) == 1 && len(as.Lhs) == 3 {
+			if c, ok := as.Rhs[0].(*ast.CallExpr); ok && f.Str(c.Fun) == "s.lockCurrentTreasure" {
+				if id, ok := as.Lhs[2].(*ast.Ident); ok && id.Name != "_" {
+					flags = append(flags, id)
+				}
+			}
+		}
+		return true
+	})
+	if len(flags) > 0 {
+		var defers []*ast.DeferStmt
+		ast.Inspect(fn, func(x ast.Node) bool {
+			if d, ok := x.(*ast.DeferStmt); ok {
+				defers = append(defers, d)
+			}
+			return true
+		})
+		bad := 0
+		ast.Inspect(fn, func(x ast.Node) bool {
+			id, ok := x.(*ast.Ident)
+			if !ok {
+				return true
+			}
+			for _, fl := range flags {
+				if id.Name == fl.Name && id.Pos() != fl.Pos() {
+					in := false
+					for _, d := range defers {
+						if id.Pos() > d.Pos() && id.End() < d.End() {
+							in = true
+						}
+					}
+					if !in && bad == 0 {
+						bad = f.Line(id)
+					}
+				}
+			}
+			return true
+		})
+		if bad != 0 {
+			return "readBeforeAcquire", bad
+		}
+	}
 	res, line := "guarded", f.Line(fn)
 	for _, st := range starts {
 		var obj *ast.Ident
